@@ -318,44 +318,7 @@ func ruleCommitlogLocks(c *eng.Ctx) {
 	for _, f := range []string{"position", "closed", "mmap", "size"} {
 		c.CheckFieldLocks(eng.LockRule{Field: p.Field(clPkg, "index", f), Lock: "mu", Exempt: idxCtor}, "index."+f)
 	}
-	logCtor := map[string]string{
-		cl + "(*commitLog).open": "runs before the log is published (open ← New)",
-		cl + "New":               "constructor",
-	}
-	// helpers of the constructor: a method whose only callers are New / open (or such helpers) also runs before the log is
-	// published — recovery steps added to New do not have to take a lock nobody else can hold yet
-	for changed := true; changed; {
-		changed = false
-		for _, fn := range p.Funcs {
-			k := ir.FuncKey(fn)
-			if _, done := logCtor[k]; done || fn.Parent() != nil || fn.Signature.Recv() == nil || !strings.HasPrefix(k, cl+"(*commitLog).") {
-				continue
-			}
-			obj, _ := fn.Object().(*types.Func)
-			if obj == nil || obj.Exported() {
-				continue
-			}
-			sites := eng.Index(p).Sites(eng.FuncRef(obj))
-			if len(sites) == 0 {
-				continue
-			}
-			all := true
-			for _, st := range sites {
-				if _, isCall := st.Instr.(*ssa.Call); !isCall || st.Mode != "call" || st.Fn.Parent() != nil {
-					all = false
-					break
-				}
-				if _, ok := logCtor[ir.FuncKey(st.Fn)]; !ok {
-					all = false
-					break
-				}
-			}
-			if all {
-				logCtor[k] = "called only from the constructor path (New / open), before the log is published"
-				changed = true
-			}
-		}
-	}
+	logCtor := commitLogCtorPath(c)
 	for _, f := range []string{"segments", "deleted"} {
 		c.CheckFieldLocks(eng.LockRule{Field: p.Field(clPkg, "commitLog", f), Lock: "mu", Exempt: logCtor}, "commitLog."+f)
 	}
@@ -578,4 +541,49 @@ func ruleCRC(c *eng.Ctx) {
 			c.Check(g && len(eq) > 0, "message returned only after CRC match", c.Pos(r), "success return dominated by crc == checksum(payload)", "readMessage can return a message whose CRC was not verified (path "+w.String()+")")
 		}
 	}
+}
+
+// commitLogCtorPath: the functions that run only while a commitLog is being constructed (New, open, and unexported methods
+// whose only callers are such functions), with the reason.
+func commitLogCtorPath(c *eng.Ctx) map[string]string {
+	p := c.P
+	logCtor := map[string]string{
+		cl + "(*commitLog).open": "runs before the log is published (open ← New)",
+		cl + "New":               "constructor",
+	}
+	// helpers of the constructor: a method whose only callers are New / open (or such helpers) also runs before the log is
+	// published — recovery steps added to New do not have to take a lock nobody else can hold yet
+	for changed := true; changed; {
+		changed = false
+		for _, fn := range p.Funcs {
+			k := ir.FuncKey(fn)
+			if _, done := logCtor[k]; done || fn.Parent() != nil || fn.Signature.Recv() == nil || !strings.HasPrefix(k, cl+"(*commitLog).") {
+				continue
+			}
+			obj, _ := fn.Object().(*types.Func)
+			if obj == nil || obj.Exported() {
+				continue
+			}
+			sites := eng.Index(p).Sites(eng.FuncRef(obj))
+			if len(sites) == 0 {
+				continue
+			}
+			all := true
+			for _, st := range sites {
+				if _, isCall := st.Instr.(*ssa.Call); !isCall || st.Mode != "call" || st.Fn.Parent() != nil {
+					all = false
+					break
+				}
+				if _, ok := logCtor[ir.FuncKey(st.Fn)]; !ok {
+					all = false
+					break
+				}
+			}
+			if all {
+				logCtor[k] = "called only from the constructor path (New / open), before the log is published"
+				changed = true
+			}
+		}
+	}
+	return logCtor
 }
